@@ -292,6 +292,56 @@ func init() {
 		}
 		return ex.b.I64(n)
 	})
+	for _, n := range []string{"Index", "IndexByte", "HasPrefix", "HasSuffix"} {
+		models["internal/stringslite."+n] = models["strings."+n]
+	}
+	reg("internal/stringslite.Cut", func(ex *Exec, fr *frame, pos token.Pos, args []value) value {
+		s, sep := args[0].(*Str), args[1].(*Str)
+		ex.needBytes(s, sep)
+		i := ex.strIndexOf(s, sep)
+		k := int(ex.concretize("cut", i, -1, int64(len(s.b))))
+		if k < 0 {
+			return tuple{s, &Str{}, ex.b.False}
+		}
+		return tuple{&Str{b: s.b[:k]}, &Str{b: s.b[k+len(sep.b):]}, ex.b.True}
+	})
+	models["strings.Cut"] = models["internal/stringslite.Cut"]
+	reg("internal/stringslite.TrimPrefix", func(ex *Exec, fr *frame, pos token.Pos, args []value) value {
+		s, p := args[0].(*Str), args[1].(*Str)
+		if ex.branch("trimprefix", ex.strMatchAt(s, p, 0)) {
+			return &Str{b: s.b[len(p.b):]}
+		}
+		return s
+	})
+	models["strings.TrimPrefix"] = models["internal/stringslite.TrimPrefix"]
+	reg("internal/stringslite.CutPrefix", func(ex *Exec, fr *frame, pos token.Pos, args []value) value {
+		s, p := args[0].(*Str), args[1].(*Str)
+		if ex.branch("cutprefix", ex.strMatchAt(s, p, 0)) {
+			return tuple{&Str{b: s.b[len(p.b):]}, ex.b.True}
+		}
+		return tuple{s, ex.b.False}
+	})
+	models["strings.CutPrefix"] = models["internal/stringslite.CutPrefix"]
+	suffix := func(ex *Exec, s, p *Str) bool {
+		ex.needBytes(s, p)
+		return ex.branch("suffix", ex.strMatchAt(s, p, len(s.b)-len(p.b)))
+	}
+	reg("internal/stringslite.TrimSuffix", func(ex *Exec, fr *frame, pos token.Pos, args []value) value {
+		s, p := args[0].(*Str), args[1].(*Str)
+		if suffix(ex, s, p) {
+			return &Str{b: s.b[:len(s.b)-len(p.b)]}
+		}
+		return s
+	})
+	models["strings.TrimSuffix"] = models["internal/stringslite.TrimSuffix"]
+	reg("internal/stringslite.CutSuffix", func(ex *Exec, fr *frame, pos token.Pos, args []value) value {
+		s, p := args[0].(*Str), args[1].(*Str)
+		if suffix(ex, s, p) {
+			return tuple{&Str{b: s.b[:len(s.b)-len(p.b)]}, ex.b.True}
+		}
+		return tuple{s, ex.b.False}
+	})
+	models["strings.CutSuffix"] = models["internal/stringslite.CutSuffix"]
 	reg("strings.Clone", func(ex *Exec, fr *frame, pos token.Pos, args []value) value { return args[0] })
 	reg("strconv.cloneString", func(ex *Exec, fr *frame, pos token.Pos, args []value) value { return args[0] })
 	reg("strings.ToLower", func(ex *Exec, fr *frame, pos token.Pos, args []value) value {
@@ -639,15 +689,62 @@ func (ex *Exec) sprintf(format string, as []value) *Str {
 			r.b = append(r.b, ex.b.I64('%'))
 			continue
 		}
+		zero := false
+		width := 0
+		for i < len(format) && format[i] == '0' {
+			zero = true
+			i++
+		}
+		for i < len(format) && format[i] >= '0' && format[i] <= '9' {
+			width = width*10 + int(format[i]-'0')
+			i++
+		}
+		if i >= len(format) {
+			return ex.opaqueStr("fmt: bad format")
+		}
 		verb := format[i]
 		if ai >= len(as) {
 			return ex.opaqueStr("fmt: missing arg")
 		}
 		a := as[ai]
 		ai++
+		// %0Nd of a value provably in [0, 10^N): fixed-width digits, no fork on the digit count
+		if zero && width > 0 && verb == 'd' {
+			if it, ok := a.(iface); ok && it.t != nil {
+				if t, ok := it.v.(*smt.Term); ok && t.Sort == smt.SInt && t.Lo != nil && t.Hi != nil && t.Lo.Sign() >= 0 &&
+					t.Hi.Cmp(new(big.Int).Exp(big.NewInt(10), big.NewInt(int64(width)), nil)) < 0 {
+					r.b = append(r.b, ex.padInt(t, width)...)
+					continue
+				}
+			}
+		}
 		piece := ex.fmtValue(verb, a)
 		if piece == nil || piece.opaque {
 			return ex.opaqueStr("fmt.Sprintf(" + format + ")")
+		}
+		if width > len(piece.b) {
+			if !zero || verb != 'd' {
+				if zero {
+					return ex.opaqueStr("fmt.Sprintf(" + format + ")")
+				}
+				for k := len(piece.b); k < width; k++ {
+					r.b = append(r.b, ex.b.I64(' '))
+				}
+			} else {
+				// zero padding goes after the sign
+				body := piece.b
+				if len(body) > 0 {
+					if cb, ok := body[0].ConstInt(); ok && cb.Int64() == '-' {
+						r.b = append(r.b, body[0])
+						body = body[1:]
+					}
+				}
+				for k := len(piece.b); k < width; k++ {
+					r.b = append(r.b, ex.b.I64('0'))
+				}
+				r.b = append(r.b, body...)
+				continue
+			}
 		}
 		r.b = append(r.b, piece.b...)
 	}
@@ -680,7 +777,7 @@ func (ex *Exec) fmtValue(verb byte, a value) *Str {
 		}
 	case *smt.Term:
 		if _, isInt := isInteger(it.t); isInt && (verb == 'v' || verb == 'd') {
-			if hasStringer(ex, it.t) {
+			if verb == 'v' && hasStringer(ex, it.t) {
 				return nil
 			}
 			return ex.itoa(v)
